@@ -105,8 +105,10 @@ Walk(f, off, fuel) ==                 \* offsets of one chain; Bad marks where i
     ELSE LET r == RecAt(f, off) IN
          IF ~r.ok THEN <<Bad>> ELSE <<off>> \o Walk(f, r.next, fuel - 1)
 Chain(f, i)   == Walk(f, f.heads[i].off, Len(f.recs) + 1)
-RECURSIVE Concat(_, _)
-Concat(ss, i) == IF i > Len(ss) THEN <<>> ELSE ss[i] \o Concat(ss, i + 1)
+RECURSIVE ConcatRange(_, _, _)                  \* ss[lo] \o ... \o ss[hi], by halving (shallow recursion)
+ConcatRange(ss, lo, hi) == IF lo > hi THEN <<>> ELSE IF lo = hi THEN ss[lo]
+                           ELSE ConcatRange(ss, lo, (lo + hi) \div 2) \o ConcatRange(ss, (lo + hi) \div 2 + 1, hi)
+Concat(ss, i) == ConcatRange(ss, i, Len(ss))
 Chains(f)     == [i \in DOMAIN f.heads |-> Chain(f, i)]
 AllOffs(f)    == Concat(Chains(f), 1)
 NoDup(s)      == \A i, j \in DOMAIN s : i # j => s[i] # s[j]
